@@ -331,6 +331,8 @@ def add_dynamical_decoupling(
 
     if context is not None and context.deep:
         raise ValueError("Deep transformation is not supported.")
+    if context is not None and context.tags_to_ignore:
+        raise ValueError("add_dynamical_decoupling doesn't support tags_to_ignore.")
 
     orig_circuit = circuit.freeze()
 
